@@ -536,6 +536,12 @@ class Env:
             return []
         p = op_place(o)
         if p["p"]:
+            # a component of a tuple built once for a `match (a, b)`: the condition is that component
+            fl = [e for e in p["p"] if e != "*"]
+            ops_ = b._frozen_agg(p["l"]) if len(fl) == 1 and isinstance(fl[0], dict) and "f" in fl[0] else None
+            if ops_ is not None and fl[0]["f"] < len(ops_):
+                da = b.single_def(p["l"])
+                return self.cond_facts(ops_[fl[0]["f"]], (da[0], da[1] if da[1] != "T" else 10**6), truth, depth - 1)
             return []
         d = b.single_def(p["l"])
         if d is None:
@@ -770,6 +776,13 @@ class Env:
 
     def const_bytes_of(self, o, depth=5):
         b = self.b
+        try:
+            import lib
+            kb0 = lib._const_bytes_through(b, o)        # also sees named constants and arrays written out element by element
+            if kb0 is not None:
+                return kb0
+        except Exception:
+            pass
         for _ in range(depth):
             k = op_const(o)
             if k is not None:
